@@ -1,4 +1,6 @@
 import TnVerif.Lemmas.Dual
+import TnVerif.Lemmas.StatsDual
+import TnVerif.Lemmas.ReadmeKeys
 import TnVerif.Props.C02
 import TnVerif.Props.C03
 import TnVerif.Props.C06
@@ -99,5 +101,598 @@ theorem partialN_tangent (t : Tensor (Dual R)) (d : Nat) (c : Dual R) (per : Boo
     (hd : d < t.length) (hi : idx.length = t.length) :
     ((t.partialN d c per k).dense idx).d = ((C20.denseD t.shape d c per)^[k] t.dense idx).d := by
   rw [C20.partialN_dense t d c per hd k idx hi]
+
+/-! ## means and variances: scalars with a division that is not a field's -/
+section natdiv
+variable {S : Type} [CommRing S] [Div S]
+
+/-- **the normalised `tn.ttm` of `tn.sum(…, _normalize=True)`, scalars that need not be a field**: in every commutative
+    ring whose division obeys `sdual_NatDivLaws` (every field; dual numbers over a field with the quotient-rule division of
+    Model/Dual.lean) entry `idx` is the dense array summed over exactly the listed modes and divided by the product of their sizes -/
+theorem meanRows_natdiv (h : sdual_NatDivLaws S) (t : Tensor S) (dims : List Bool) (idx : List Nat)
+    (hd : dims.length = t.length) (hi : idx.length = t.length) :
+    (t.meanRows dims).dense idx = sumOver dims t.shape t.dense idx / ((cntOver dims t.shape : Nat) : S) := by
+  unfold Tensor.meanRows Tensor.ttm Tensor.dense
+  rw [dense_linModes t _ idx (by simp [hd]) hi]
+  have hz : List.zipWith (fun b (m : TMode S) => if b then some (1, meanL (R := S) m.n) else Option.none) dims t =
+      List.zipWith (fun b n => if b then some (1, fun _ _ => (fun n => (1 / natR n : S) * 1) n) else Option.none) dims t.shape :=
+    zipWith_modes (R := S) (fun b n => if b then some (1, fun _ _ => (fun n => (1 / natR n : S) * 1) n) else Option.none) dims t
+  rw [hz, applyMaps_const (fun n => (1 / natR n : S) * 1) dims t.shape _ idx (by rw [hi, shape_length]), sdual_cprod_inv h,
+    mul_comm, ← h.div_nat]
+
+/-- `tn.mean(t, dims, keepdim=True)` (no listed mode empty) over such scalars: succeeds, is well formed, has the averaged
+    modes set to 1, and every entry is the dense average over the listed modes (`C06.meanKeep_dense` without the `Field` hypothesis) -/
+theorem meanKeep_natdiv (h : sdual_NatDivLaws S) (t : Tensor S) (ht : t.WF) (dims : List Bool) (hd : dims.length = t.length)
+    (hz : flaggedZero dims t.shape = false) :
+    ∃ k : Tensor S, t.meanKeep dims = .ok k ∧ k.WF ∧ k.shape = oneShape dims t.shape ∧
+      ∀ idx, idx.length = t.length →
+        k.dense idx = sumOver dims t.shape t.dense idx / ((cntOver dims t.shape : Nat) : S) := by
+  refine ⟨t.meanRows dims, by simp [Tensor.meanKeep, hz], WF_linModes_sq t _ ht, shape_linModes_row (fun n => meanL n) t dims, ?_⟩
+  intro idx hi
+  exact meanRows_natdiv h t dims idx hd hi
+
+/-- `tn.mean(t)` over such scalars is the scalar `(Σ_idx t[idx]) / numel` (`C06.mean_dense` without the `Field` hypothesis) -/
+theorem mean_natdiv (h : sdual_NatDivLaws S) (t : Tensor S) (ht : t.WF) (hpos : ∀ n ∈ t.shape, 0 < n) :
+    t.mean (allDims t) = .ok (.inr (boxSum t.shape t.dense / ((t.shape.prod : Nat) : S))) := by
+  have hd := allDims_length t
+  have hz := flaggedZero_pos (allDims t) t.shape hpos
+  obtain ⟨a, _⟩ := C06.squeeze_rows (fun n => meanL n) t ht (allDims t) hd (t.meanRows (allDims t)) rfl
+  simp only [Tensor.mean, Tensor.meanKeep, hz, Bool.false_eq_true, if_false, bind, Except.bind]
+  rw [a (allDims_all t)]
+  simp only
+  rw [meanRows_natdiv h t (allDims t) (List.replicate t.length 0) hd (by simp), allDims_eq,
+    sumOver_all _ _ _ (by simp [shape_length]), cntOver_all]
+
+/-- `tn.mean(t, dims)` over a proper subset of the modes, over such scalars: the listed modes are deleted and the entries
+    are the dense averages over them (`C06.mean_subset_dense` without the `Field` hypothesis) -/
+theorem mean_subset_natdiv (h : sdual_NatDivLaws S) (t : Tensor S) (ht : t.WF) (dims : List Bool) (hd : dims.length = t.length)
+    (hz : flaggedZero dims t.shape = false) (hnot : dims.all id = false) :
+    ∃ v : Tensor S, t.mean dims = .ok (.inl v) ∧ v.WF ∧ v.shape = keepShape dims t.shape ∧
+      ∀ out, out.length = v.length →
+        v.dense out = sumOver dims t.shape t.dense (fillIdx dims out) / ((cntOver dims t.shape : Nat) : S) := by
+  obtain ⟨_, b⟩ := C06.squeeze_rows (fun n => meanL n) t ht dims hd (t.meanRows dims) rfl
+  obtain ⟨v, h1, hw, h2, h3⟩ := b hnot
+  refine ⟨v, ?_, hw, h2, fun out ho => ?_⟩
+  · simp only [Tensor.mean, Tensor.meanKeep, hz, Bool.false_eq_true, if_false, bind, Except.bind]
+    rw [h1]
+  · obtain ⟨hl, hv⟩ := h3 out ho
+    rw [hv, meanRows_natdiv h t dims _ hd hl]
+
+/-- `tn.var(t)` (no empty mode) over such scalars never fails and equals `(1/numel)·Σ_idx (t[idx] − μ)²` with
+    `μ = (Σ_idx t[idx]) / numel` (`C06.var_dense` without the `Field` hypothesis) -/
+theorem var_natdiv (h : sdual_NatDivLaws S) (t : Tensor S) (ht : t.WF) (hpos : ∀ n ∈ t.shape, 0 < n) :
+    t.var = .ok (boxSum t.shape (fun idx =>
+        (t.dense idx - boxSum t.shape t.dense / ((t.shape.prod : Nat) : S)) *
+        (t.dense idx - boxSum t.shape t.dense / ((t.shape.prod : Nat) : S))) / ((t.shape.prod : Nat) : S)) := by
+  unfold Tensor.var
+  rw [mean_natdiv h t ht hpos]
+  simp only [bind, Except.bind, pure, Except.pure]
+  obtain ⟨w, s⟩ := C02.scalarAdd_wf_shape (-1 * (boxSum t.shape t.dense / ((t.shape.prod : Nat) : S))) t ht
+  rw [C06.normsq_eq _ w, s, sdual_numelR_eq]
+  congr 2
+  apply boxSum_congr_in_st
+  intro is his
+  rw [C02.scalarAdd_dense _ t ht is (by rw [inShape_length is _ his, shape_length])]
+  ring
+
+/-- `t * pdf` for the rank-one tensor of normalised marginals, over a commutative ring with ANY division (no law of `/`
+    is needed: the code and the dense formula divide the same things): entries are `t[idx] · Π_n w_n[idx_n] / Σ w_n` -/
+theorem mul_pdf_anydiv (t : Tensor S) (ht : t.WF) (margs : List (Option (Nat × (Nat → S)))) (hm : sdual_margsFit t.shape margs) :
+    (t.mul (pdfT t.shape margs)).WF ∧ (t.mul (pdfT t.shape margs)).shape = t.shape ∧
+    (t.mul (pdfT t.shape margs)).length = t.length ∧
+    ∀ js, js.length = t.length → (t.mul (pdfT t.shape margs)).dense js = t.dense js * sdual_margW margs js := by
+  have hne : t.shape ≠ [] := by
+    intro h; cases t with
+    | nil => simp [Tensor.WF] at ht
+    | cons _ _ => simp [Tensor.shape] at h
+  have hpw := sdual_WF_pdfT t.shape margs hne
+  have hps := sdual_shape_pdfT t.shape margs hm
+  obtain ⟨w, s⟩ := C02.mul_wf_shape t _ ht hpw hps.symm
+  refine ⟨w, s, by rw [← shape_length, s, shape_length], fun js hjs => ?_⟩
+  rw [C02.mul_dense t _ ht hpw hps.symm]
+  unfold Tensor.dense
+  rw [sdual_dense_pdfT t.shape margs js hne (by rw [hjs, shape_length])]
+
+/-- `tn.mean(t, marginals=…)` over all modes, any division: the scalar `Σ_idx t[idx] · Π_n w_n[idx_n] / Σ w_n`
+    (`C06.mean_marginals_dense` without the `Field` hypothesis) -/
+theorem mean_marginals_anydiv (t : Tensor S) (ht : t.WF) (margs : List (Option (Nat × (Nat → S))))
+    (hm : sdual_margsFit t.shape margs) :
+    t.meanMarg (allDims t) margs = .ok (.inr (boxSum t.shape (fun js => t.dense js * sdual_margW margs js))) := by
+  obtain ⟨w, s, l, d⟩ := mul_pdf_anydiv t ht margs hm
+  unfold Tensor.meanMarg
+  have hall : allDims t = allDims (t.mul (pdfT t.shape margs)) := by
+    rw [allDims_eq, allDims_eq, s]
+  rw [hall, C06.sum_all _ w, s]
+  congr 2
+  exact boxSum_congr_in_st t.shape _ _ (fun js hjs => d js (by rw [inShape_length js _ hjs, shape_length]))
+
+/-- `tn.mean(t, dims, marginals)` over a proper subset of the modes, any division (`C06.mean_marginals_subset_dense`
+    without the `Field` hypothesis) -/
+theorem mean_marginals_subset_anydiv (t : Tensor S) (ht : t.WF) (dims : List Bool) (margs : List (Option (Nat × (Nat → S))))
+    (hm : sdual_margsFit t.shape margs) (hd : dims.length = t.length) (hnot : dims.all id = false) :
+    ∃ v : Tensor S, t.meanMarg dims margs = .ok (.inl v) ∧ v.WF ∧ v.shape = keepShape dims t.shape ∧
+      ∀ out, out.length = v.length →
+        v.dense out = sumOver dims t.shape (fun js => t.dense js * sdual_margW margs js) (fillIdx dims out) := by
+  obtain ⟨w, s, l, d⟩ := mul_pdf_anydiv t ht margs hm
+  obtain ⟨v, h1, hvw, h2, h3⟩ := C06.sum_removes_modes _ w dims (by rw [l]; exact hd) hnot
+  refine ⟨v, h1, hvw, by rw [h2, s], fun out ho => ?_⟩
+  rw [h3 out ho, s]
+  have hkl := keepShape_length dims t.shape (by rw [shape_length]; exact hd)
+  have hfl : (fillIdx dims out).length = t.shape.length := by
+    rw [fillIdx_length dims out (by rw [ho, ← shape_length, h2, s, hkl]), hd, shape_length]
+  exact sumOver_congr_len dims t.shape _ _ _ hfl (fun js hjs => d js (by rw [hjs, shape_length]))
+
+/-- `tn.var(t, marginals)`, any division: `Σ_idx W[idx]·(t[idx] − μ)²` with `W[idx] = Π_n w_n[idx_n] / Σ w_n` and
+    `μ = Σ_idx W[idx]·t[idx]` (`C06.var_marginals_dense` without the `Field` hypothesis) -/
+theorem var_marginals_anydiv (t : Tensor S) (ht : t.WF) (margs : List (Nat × (Nat → S))) (hl : margs.length = t.length)
+    (hm : sdual_margsFit t.shape (margs.map some)) :
+    t.varMarg margs = .ok (boxSum t.shape (fun idx =>
+        (t.dense idx - boxSum t.shape (fun js => t.dense js * sdual_margW (margs.map some) js)) *
+        (t.dense idx - boxSum t.shape (fun js => t.dense js * sdual_margW (margs.map some) js)) *
+          sdual_margW (margs.map some) idx)) := by
+  unfold Tensor.varMarg
+  rw [if_neg (by simp [hl]), mean_marginals_anydiv t ht _ hm]
+  simp only
+  rw [← sdual_pdfT_all t.shape margs (by rw [hl, shape_length])]
+  generalize boxSum t.shape (fun js => t.dense js * sdual_margW (margs.map some) js) = μ
+  obtain ⟨w, s⟩ := C02.scalarAdd_wf_shape (-1 * μ) t ht
+  have hm' : sdual_margsFit (t.scalarAdd (-1 * μ)).shape (margs.map some) := by rw [s]; exact hm
+  obtain ⟨w2, s2, _, d2⟩ := mul_pdf_anydiv _ w (margs.map some) hm'
+  rw [s] at s2 d2
+  have hlen : (t.scalarAdd (-1 * μ)).length = t.length := by rw [← shape_length, s, shape_length]
+  rw [s] at w2
+  rw [C06.dot_eq _ _ w2 w (by rw [s2, s]), s2]
+  congr 1
+  apply boxSum_congr_in_st
+  intro is his
+  have hil : is.length = t.length := by rw [inShape_length is _ his, shape_length]
+  rw [d2 is (by rw [hil, hlen]), C02.scalarAdd_dense _ t ht is hil]
+  ring
+
+end natdiv
+
+/-! ## means and variances at dual numbers -/
+section dualstats
+variable {K : Type} [Field K]
+
+/-- **gradient of `tn.mean(t)`**: with tangents on every entry of every core and factor (`t : Tensor (Dual K)`, the scalars
+    and the `Div` instance the compiled driver computes with), `tn.mean(t)` returns the dense mean `(Σ_idx t[idx]) / numel`
+    evaluated in dual numbers; its value is the mean of the dense values and its tangent is the mean of the dense tangents,
+    i.e. every partial derivative of the compressed mean equals that of the mean of the decompressed array -/
+theorem mean_tangent (t : Tensor (Dual K)) (ht : t.WF) (hpos : ∀ n ∈ t.shape, 0 < n) :
+    ∃ μ : Dual K, t.mean (allDims t) = .ok (.inr μ) ∧
+      μ = boxSum t.shape t.dense / ((t.shape.prod : Nat) : Dual K) ∧
+      μ.v = boxSum t.shape (fun idx => (t.dense idx).v) / (t.shape.prod : K) ∧
+      μ.d = boxSum t.shape (fun idx => (t.dense idx).d) / (t.shape.prod : K) := by
+  refine ⟨_, mean_natdiv Dual.sdual_natDivLaws t ht hpos, rfl, ?_, ?_⟩
+  · rw [Dual.sdual_div_nat_v, Dual.sdual_boxSum_v]
+  · rw [Dual.sdual_div_nat_d, Dual.sdual_boxSum_d]
+
+/-- **gradient of `tn.mean(t, dims, keepdim=True)`**, entrywise: value and tangent of every entry of the result are the
+    averages over the listed modes of the dense values, resp. of the dense tangents -/
+theorem meanKeep_tangent (t : Tensor (Dual K)) (ht : t.WF) (dims : List Bool) (hd : dims.length = t.length)
+    (hz : flaggedZero dims t.shape = false) :
+    ∃ k : Tensor (Dual K), t.meanKeep dims = .ok k ∧ k.WF ∧ k.shape = oneShape dims t.shape ∧
+      ∀ idx, idx.length = t.length →
+        k.dense idx = sumOver dims t.shape t.dense idx / ((cntOver dims t.shape : Nat) : Dual K) ∧
+        (k.dense idx).v = sumOver dims t.shape (fun js => (t.dense js).v) idx / (cntOver dims t.shape : K) ∧
+        (k.dense idx).d = sumOver dims t.shape (fun js => (t.dense js).d) idx / (cntOver dims t.shape : K) := by
+  obtain ⟨k, h1, h2, h3, h4⟩ := meanKeep_natdiv Dual.sdual_natDivLaws t ht dims hd hz
+  refine ⟨k, h1, h2, h3, fun idx hi => ⟨h4 idx hi, ?_, ?_⟩⟩
+  · rw [h4 idx hi, Dual.sdual_div_nat_v, Dual.sdual_sumOver_v]
+  · rw [h4 idx hi, Dual.sdual_div_nat_d, Dual.sdual_sumOver_d]
+
+/-- **gradient of `tn.mean(t, dims)`** over a proper subset of the modes, entrywise: the listed modes are deleted; value and
+    tangent of every entry are the averages over those modes of the dense values, resp. of the dense tangents -/
+theorem mean_subset_tangent (t : Tensor (Dual K)) (ht : t.WF) (dims : List Bool) (hd : dims.length = t.length)
+    (hz : flaggedZero dims t.shape = false) (hnot : dims.all id = false) :
+    ∃ v : Tensor (Dual K), t.mean dims = .ok (.inl v) ∧ v.WF ∧ v.shape = keepShape dims t.shape ∧
+      ∀ out, out.length = v.length →
+        v.dense out = sumOver dims t.shape t.dense (fillIdx dims out) / ((cntOver dims t.shape : Nat) : Dual K) ∧
+        (v.dense out).v = sumOver dims t.shape (fun js => (t.dense js).v) (fillIdx dims out) / (cntOver dims t.shape : K) ∧
+        (v.dense out).d = sumOver dims t.shape (fun js => (t.dense js).d) (fillIdx dims out) / (cntOver dims t.shape : K) := by
+  obtain ⟨v, h1, h2, h3, h4⟩ := mean_subset_natdiv Dual.sdual_natDivLaws t ht dims hd hz hnot
+  refine ⟨v, h1, h2, h3, fun out ho => ⟨h4 out ho, ?_, ?_⟩⟩
+  · rw [h4 out ho, Dual.sdual_div_nat_v, Dual.sdual_sumOver_v]
+  · rw [h4 out ho, Dual.sdual_div_nat_d, Dual.sdual_sumOver_d]
+
+/-- **gradient of `tn.var(t)`**: the result is the dense variance expression `(1/numel)·Σ_idx (t[idx] − μ)²`, `μ` the dense
+    mean, evaluated in dual numbers; its value is the variance of the dense values and its tangent is
+    `(1/numel)·Σ_idx 2·(v[idx] − mean v)·(d[idx] − mean d)`, the directional derivative of the variance of the decompressed
+    array along the dense tangents `d` -/
+theorem var_tangent (t : Tensor (Dual K)) (ht : t.WF) (hpos : ∀ n ∈ t.shape, 0 < n) :
+    ∃ x : Dual K, t.var = .ok x ∧
+      x = boxSum t.shape (fun idx =>
+        (t.dense idx - boxSum t.shape t.dense / ((t.shape.prod : Nat) : Dual K)) *
+        (t.dense idx - boxSum t.shape t.dense / ((t.shape.prod : Nat) : Dual K))) / ((t.shape.prod : Nat) : Dual K) ∧
+      x.v = boxSum t.shape (fun idx =>
+        ((t.dense idx).v - boxSum t.shape (fun js => (t.dense js).v) / (t.shape.prod : K)) *
+        ((t.dense idx).v - boxSum t.shape (fun js => (t.dense js).v) / (t.shape.prod : K))) / (t.shape.prod : K) ∧
+      x.d = boxSum t.shape (fun idx =>
+        2 * (((t.dense idx).v - boxSum t.shape (fun js => (t.dense js).v) / (t.shape.prod : K)) *
+             ((t.dense idx).d - boxSum t.shape (fun js => (t.dense js).d) / (t.shape.prod : K)))) / (t.shape.prod : K) := by
+  refine ⟨_, var_natdiv Dual.sdual_natDivLaws t ht hpos, rfl, ?_, ?_⟩
+  · rw [Dual.sdual_div_nat_v, Dual.sdual_boxSum_v]
+    simp only [Dual.mul_v, Dual.sub_v, Dual.sdual_div_nat_v, Dual.sdual_boxSum_v]
+  · rw [Dual.sdual_div_nat_d, Dual.sdual_boxSum_d]
+    simp only [Dual.mul_d, Dual.sub_v, Dual.sub_d, Dual.sdual_div_nat_v, Dual.sdual_div_nat_d, Dual.sdual_boxSum_v,
+      Dual.sdual_boxSum_d]
+    congr 2
+    funext idx
+    ring
+
+end dualstats
+
+/-! ## norms, distances, standard deviation: a smooth scalar head on a proved radicand; the README loss for arbitrary keys -/
+
+section heads
+variable {R : Type} [CommRing R]
+
+/-- `t - u` of two well-formed tensors of equal shape is well formed and has that shape -/
+theorem readme_sub_wf_shape (t u : Tensor R) (ht : t.WF) (hu : u.WF) (hs : t.shape = u.shape) :
+    (t.sub u).WF ∧ (t.sub u).shape = t.shape := by
+  unfold Tensor.sub Tensor.neg
+  exact C02.add_wf_shape t _ ht (WF_scalarMul _ _ u hu) (by rw [shape_scalarMul]; exact hs)
+
+/-- **gradient of `tn.norm(t)`** = `sqrt(clamp(normsq(t), 0))`: for ANY scalar head `f` with derivative function `f'`, applying the
+    head to the compressed `tn.normsq(t)` gives the same dual number as applying it to `Σ_idx t[idx]²` on the dense array, so
+    the chain-rule factor `f'` is common to both paths; explicitly the tangent is `f'(Σ v²)·Σ 2·v[idx]·d[idx]` -/
+theorem norm_tangent (f f' : R → R) (t : Tensor (Dual R)) (ht : t.WF) :
+    Dual.sdual_head f f' t.normsq = Dual.sdual_head f f' (boxSum t.shape (fun idx => t.dense idx * t.dense idx)) ∧
+    Dual.sdual_head f f' t.normsq =
+      ⟨f (boxSum t.shape (fun idx => (t.dense idx).v * (t.dense idx).v)),
+       f' (boxSum t.shape (fun idx => (t.dense idx).v * (t.dense idx).v)) *
+         boxSum t.shape (fun idx => 2 * ((t.dense idx).v * (t.dense idx).d))⟩ := by
+  have h := C06.normsq_eq t ht
+  refine ⟨by rw [h], ?_⟩
+  rw [h]
+  unfold Dual.sdual_head
+  rw [Dual.sdual_boxSum_v, Dual.sdual_boxSum_d]
+  simp only [Dual.mul_v, Dual.mul_d]
+  congr 3
+  funext idx; ring
+
+/-- **gradient of `tn.dist(t, u)`** = `sqrt(clamp(‖t‖² + ‖u‖² − 2⟨t,u⟩, 0))`: for any head `f` with derivative `f'`, the head applied to
+    the radicand the code computes equals the head applied to the compressed `‖t − u‖²`, and equals the head applied to the dense
+    `Σ_idx (t[idx] − u[idx])²`; explicitly the tangent is `f'(Σ (v−w)²)·Σ 2·(v−w)[idx]·(d−e)[idx]` -/
+theorem dist_tangent (f f' : R → R) (t u : Tensor (Dual R)) (ht : t.WF) (hu : u.WF) (hs : t.shape = u.shape) :
+    Dual.sdual_head f f' (t.normsq + u.normsq - 2 * t.dot u) = Dual.sdual_head f f' ((t.sub u).normsq) ∧
+    Dual.sdual_head f f' (t.normsq + u.normsq - 2 * t.dot u) =
+      ⟨f (boxSum t.shape (fun idx => ((t.dense idx).v - (u.dense idx).v) * ((t.dense idx).v - (u.dense idx).v))),
+       f' (boxSum t.shape (fun idx => ((t.dense idx).v - (u.dense idx).v) * ((t.dense idx).v - (u.dense idx).v))) *
+         boxSum t.shape (fun idx => 2 * (((t.dense idx).v - (u.dense idx).v) * ((t.dense idx).d - (u.dense idx).d)))⟩ := by
+  refine ⟨by rw [C06.distsq_eq_normsq_sub t u ht hu hs], ?_⟩
+  rw [C06.dist_sq t u ht hu hs]
+  unfold Dual.sdual_head
+  rw [Dual.sdual_boxSum_v, Dual.sdual_boxSum_d]
+  simp only [Dual.mul_v, Dual.mul_d, Dual.sub_v, Dual.sub_d]
+  congr 3
+  funext idx; ring
+
+end heads
+
+section stdhead
+variable {K : Type} [Field K]
+
+/-- **gradient of `tn.std(t)`** = `sqrt(clamp(tn.var(t), 0))`: for any head `f` with derivative `f'`, the head applied to what `tn.var`
+    returns equals the head applied to the dense variance expression in dual numbers; the tangent is `f'(var v)` times the directional
+    derivative of the dense variance -/
+theorem std_tangent (f f' : K → K) (t : Tensor (Dual K)) (ht : t.WF) (hpos : ∀ n ∈ t.shape, 0 < n) :
+    ∃ x : Dual K, t.var = .ok x ∧
+      Dual.sdual_head f f' x = Dual.sdual_head f f' (boxSum t.shape (fun idx =>
+        (t.dense idx - boxSum t.shape t.dense / ((t.shape.prod : Nat) : Dual K)) *
+        (t.dense idx - boxSum t.shape t.dense / ((t.shape.prod : Nat) : Dual K))) / ((t.shape.prod : Nat) : Dual K)) ∧
+      (Dual.sdual_head f f' x).d =
+        f' (boxSum t.shape (fun idx =>
+          ((t.dense idx).v - boxSum t.shape (fun js => (t.dense js).v) / (t.shape.prod : K)) *
+          ((t.dense idx).v - boxSum t.shape (fun js => (t.dense js).v) / (t.shape.prod : K))) / (t.shape.prod : K)) *
+        (boxSum t.shape (fun idx =>
+          2 * (((t.dense idx).v - boxSum t.shape (fun js => (t.dense js).v) / (t.shape.prod : K)) *
+               ((t.dense idx).d - boxSum t.shape (fun js => (t.dense js).d) / (t.shape.prod : K)))) / (t.shape.prod : K)) := by
+  obtain ⟨x, h1, h2, h3, h4⟩ := var_tangent t ht hpos
+  refine ⟨x, h1, by rw [← h2], ?_⟩
+  unfold Dual.sdual_head
+  simp only
+  rw [h3, h4]
+
+end stdhead
+
+section readme
+variable {R : Type} [CommRing R]
+
+/-- **the README loss `tn.norm(t[k1] − t[k2])` for ANY two keys of the grammar with tensor-valued results of equal shape**:
+    both slices are well formed, have the same shape, and for any head `f` with derivative `f'` the head applied to the
+    compressed `normsq(t[k1] − t[k2])` equals the head applied to `Σ_out (t[src1 out] − t[src2 out])²` on the dense array of `t` —
+    value and tangent, for every assignment of tangents to the entries of the cores and factors of `t` -/
+theorem readme_loss_tangent_keys (f f' : R → R) (t : Tensor (Dual R)) (ht : t.WF)
+    (k1 k2 key1 key2 : List RawItem) (items1 items2 : List Item)
+    (h11 : processKey t.length k1 = .ok key1) (h12 : normKey key1 t.shape = .ok items1)
+    (h21 : processKey t.length k2 = .ok key2) (h22 : normKey key2 t.shape = .ok items2)
+    (a b : Tensor (Dual R)) (ha : t.getitem k1 = .ok (.inl a)) (hb : t.getitem k2 = .ok (.inl b))
+    (hs : outShape (groupKey items1) = outShape (groupKey items2)) :
+    a.WF ∧ b.WF ∧ a.shape = outShape (groupKey items1) ∧ b.shape = a.shape ∧
+    Dual.sdual_head f f' ((a.sub b).normsq) =
+      Dual.sdual_head f f' (boxSum (outShape (groupKey items1)) (fun out =>
+        (t.dense (srcIdx (groupKey items1) out) - t.dense (srcIdx (groupKey items2) out)) *
+        (t.dense (srcIdx (groupKey items1) out) - t.dense (srcIdx (groupKey items2) out)))) := by
+  obtain ⟨a1, a2⟩ := C03.getitem_spec t ht k1 key1 items1 h11 h12 _ ha
+  obtain ⟨b1, b2⟩ := C03.getitem_spec t ht k2 key2 items2 h21 h22 _ hb
+  have hne1 : outShape (groupKey items1) ≠ [] := by
+    intro h; have := a1 h; cases this
+  have hne2 : outShape (groupKey items2) ≠ [] := by rw [← hs]; exact hne1
+  obtain ⟨va, ea, wa, sa, da⟩ := a2 hne1
+  obtain ⟨vb, eb, wb, sb, db⟩ := b2 hne2
+  cases ea; cases eb
+  have hsab : a.shape = b.shape := by rw [sa, sb, hs]
+  obtain ⟨ws, ss⟩ := readme_sub_wf_shape a b wa wb hsab
+  refine ⟨wa, wb, sa, hsab.symm, ?_⟩
+  rw [C06.normsq_eq _ ws, ss, sa]
+  congr 1
+  apply boxSum_congr_in_st
+  intro is his
+  have hl : is.length = a.length := by rw [inShape_length is _ his, ← sa, shape_length]
+  rw [C02.sub_dense a b wa wb hsab is hl, da is hl, db is (by rw [hl, ← shape_length, hsab, shape_length])]
+
+end readme
+
+/-! ## the README loss with its actual keys -/
+
+section readme2
+variable {R : Type} [CommRing R]
+
+/-- `t[key]` for a key with one of `:3`, `-3:`, `:` per mode (the sliced modes having at least 3 entries): `_process_key` and the
+    bounds normalisation succeed, the call returns a well-formed tensor of shape `readme_shape` whose entry `out` is `t[readme_src out]` -/
+theorem readme_getitem {S : Type} [CommSemiring S] (t : Tensor S) (ht : t.WF) (l : List ReadmeSl) (hl : l.length = t.length)
+    (hok : readme_ok l t.shape) :
+    processKey t.length (readme_raw l) = .ok (readme_raw l) ∧
+    normKey (readme_raw l) t.shape = .ok (readme_items l t.shape) ∧
+    ∃ v : Tensor S, t.getitem (readme_raw l) = .ok (.inl v) ∧ v.WF ∧ v.shape = readme_shape l t.shape ∧
+      ∀ out, out.length = v.length → v.dense out = t.dense (readme_src l t.shape out) := by
+  have h1 := readme_processKey t.length l hl
+  have hls : l.length = t.shape.length := by rw [hl, shape_length]
+  have h2 := readme_normKey l t.shape hls hok
+  refine ⟨h1, h2, ?_⟩
+  obtain ⟨res, hres⟩ := (C03.getitem_ok_iff t _ _ _ h1 h2).mpr (by rw [readme_groupKey]; exact readme_runsOK _ _ _)
+  obtain ⟨_, b⟩ := C03.getitem_spec t ht _ _ _ h1 h2 res hres
+  rw [readme_groupKey, readme_outShape] at b
+  have hne : readme_shape l t.shape ≠ [] := by
+    intro h
+    have := readme_shape_length l t.shape hls
+    rw [h, hl] at this
+    cases t with
+    | nil => simp [Tensor.WF] at ht
+    | cons _ _ => simp at this
+  obtain ⟨v, e, w, sh, d⟩ := b hne
+  refine ⟨v, by rw [hres, e], w, sh, ?_⟩
+  intro out ho
+  rw [d out ho, readme_srcIdx l t.shape out hls (by rw [ho, ← shape_length, sh, readme_shape_length l t.shape hls])]
+
+/-- **the README loss `tn.norm(t[:3, …, :3] - t[-3:, …, -3:])`** (README.md:89-91; any number of modes, every mode of size ≥ 3):
+    both indexings succeed with well-formed results of shape `(3, …, 3)`, the subtraction and `normsq` go through, and for any head `f`
+    (here `sqrt∘clamp`) with derivative `f'` the loss computed on the compressed tensors has the same value AND the same tangent as
+    `f(Σ_{out ∈ [0,3)^N} (t[out] − t[shape − 3 + out])²)` computed on the decompressed array — for every assignment of tangents to
+    the entries of every core and factor of `t`, i.e. the gradients w.r.t. all cores and factors agree -/
+theorem readme_loss_tangent (f f' : R → R) (t : Tensor (Dual R)) (ht : t.WF) (h3 : ∀ n ∈ t.shape, 3 ≤ n) :
+    ∃ a b : Tensor (Dual R),
+      t.getitem (List.replicate t.length (.slice Option.none (some 3) Option.none)) = .ok (.inl a) ∧
+      t.getitem (List.replicate t.length (.slice (some (-3)) Option.none Option.none)) = .ok (.inl b) ∧
+      a.WF ∧ b.WF ∧ a.shape = List.replicate t.length 3 ∧ b.shape = List.replicate t.length 3 ∧
+      Dual.sdual_head f f' ((a.sub b).normsq) =
+        Dual.sdual_head f f' (boxSum (List.replicate t.length 3) (fun out =>
+          (t.dense out - t.dense (List.zipWith (fun n j => n - 3 + j) t.shape out)) *
+          (t.dense out - t.dense (List.zipWith (fun n j => n - 3 + j) t.shape out)))) := by
+  have hsl := shape_length t
+  have hokf : readme_ok (List.replicate t.length .front) t.shape := by rw [← hsl]; exact readme_ok_replicate .front t.shape h3
+  have hokb : readme_ok (List.replicate t.length .back) t.shape := by rw [← hsl]; exact readme_ok_replicate .back t.shape h3
+  obtain ⟨p1, n1, a, ha, wa, sa, da⟩ := readme_getitem t ht (List.replicate t.length .front) (by simp) hokf
+  obtain ⟨p2, n2, b, hb, wb, sb, db⟩ := readme_getitem t ht (List.replicate t.length .back) (by simp) hokb
+  have sa' : a.shape = List.replicate t.length 3 := by
+    rw [sa]; conv_lhs => rw [← hsl]
+    rw [readme_shape_replicate_front, hsl]
+  have sb' : b.shape = List.replicate t.length 3 := by
+    rw [sb]; conv_lhs => rw [← hsl]
+    rw [readme_shape_replicate_back, hsl]
+  have hs : outShape (groupKey (readme_items (List.replicate t.length .front) t.shape)) =
+      outShape (groupKey (readme_items (List.replicate t.length .back) t.shape)) := by
+    rw [readme_groupKey, readme_groupKey, readme_outShape, readme_outShape, ← sa, ← sb, sa', sb']
+  obtain ⟨_, _, s1, _, hh⟩ := readme_loss_tangent_keys f f' t ht _ _ _ _ _ _ p1 n1 p2 n2 a b ha hb hs
+  rw [readme_raw_replicate] at ha hb
+  refine ⟨a, b, ha, hb, wa, wb, sa', sb', ?_⟩
+  rw [hh, ← s1, sa']
+  congr 1
+  apply boxSum_congr_in_st
+  intro is his
+  have hl : is.length = t.length := by rw [inShape_length is _ his]; simp
+  have e1 : srcIdx (groupKey (readme_items (List.replicate t.length .front) t.shape)) is = is := by
+    rw [readme_groupKey, readme_srcIdx _ _ _ (by simp [hsl]) (by simp [hl])]
+    conv_lhs => rw [← hsl]
+    exact readme_src_replicate_front t.shape is (by rw [hl, hsl])
+  have e2 : srcIdx (groupKey (readme_items (List.replicate t.length .back) t.shape)) is =
+      List.zipWith (fun n j => n - 3 + j) t.shape is := by
+    rw [readme_groupKey, readme_srcIdx _ _ _ (by simp [hsl]) (by simp [hl])]
+    conv_lhs => rw [← hsl]
+    exact readme_src_replicate_back t.shape is (by rw [hl, hsl])
+  rw [e1, e2]
+
+/-- **the abbreviated README loss `tn.norm(t[:3, ...] - t[-3:, ...])`** (first mode of size ≥ 3, any further modes): the Ellipsis
+    expands to `:` on the remaining modes, both results have shape `(3, shape[1:]…)`, and the loss on the compressed tensors has the
+    same value and tangent as `f(Σ_out (t[j, rest] − t[n₀ − 3 + j, rest])²)` on the decompressed array -/
+theorem readme_loss_first_mode_tangent (f f' : R → R) (m : TMode (Dual R)) (ms : Tensor (Dual R)) (ht : Tensor.WF (m :: ms))
+    (h3 : 3 ≤ m.n) :
+    ∃ a b : Tensor (Dual R),
+      Tensor.getitem (m :: ms) [.slice Option.none (some 3) Option.none, .ellipsis] = .ok (.inl a) ∧
+      Tensor.getitem (m :: ms) [.slice (some (-3)) Option.none Option.none, .ellipsis] = .ok (.inl b) ∧
+      a.WF ∧ b.WF ∧ a.shape = 3 :: Tensor.shape ms ∧ b.shape = 3 :: Tensor.shape ms ∧
+      Dual.sdual_head f f' ((a.sub b).normsq) =
+        Dual.sdual_head f f' (boxSum (3 :: Tensor.shape ms) (fun out =>
+          (Tensor.dense (m :: ms) out - Tensor.dense (m :: ms) ((m.n - 3 + out.headD 0) :: out.tail)) *
+          (Tensor.dense (m :: ms) out - Tensor.dense (m :: ms) ((m.n - 3 + out.headD 0) :: out.tail)))) := by
+  have hsh : Tensor.shape (m :: ms) = m.n :: Tensor.shape ms := rfl
+  have hmsl : (Tensor.shape ms).length = ms.length := shape_length ms
+  have hokf : readme_ok (.front :: List.replicate ms.length .all) (Tensor.shape (m :: ms)) := by
+    rw [hsh, ← hmsl]; exact ⟨h3, readme_ok_all _⟩
+  have hokb : readme_ok (.back :: List.replicate ms.length .all) (Tensor.shape (m :: ms)) := by
+    rw [hsh, ← hmsl]; exact ⟨h3, readme_ok_all _⟩
+  obtain ⟨_, n1, a, ha, wa, sa, da⟩ := readme_getitem (m :: ms) ht (.front :: List.replicate ms.length .all) (by simp) hokf
+  obtain ⟨_, n2, b, hb, wb, sb, db⟩ := readme_getitem (m :: ms) ht (.back :: List.replicate ms.length .all) (by simp) hokb
+  have p1 := readme_processKey_ellipsis ms.length .front
+  have p2 := readme_processKey_ellipsis ms.length .back
+  have ha' : Tensor.getitem (m :: ms) [ReadmeSl.front.raw, .ellipsis] = .ok (.inl a) := by
+    rw [← ha]; simp only [Tensor.getitem, List.length_cons, p1, readme_processKey _ _ (by simp : (ReadmeSl.front :: List.replicate ms.length .all).length = ms.length + 1)]
+  have hb' : Tensor.getitem (m :: ms) [ReadmeSl.back.raw, .ellipsis] = .ok (.inl b) := by
+    rw [← hb]; simp only [Tensor.getitem, List.length_cons, p2, readme_processKey _ _ (by simp : (ReadmeSl.back :: List.replicate ms.length .all).length = ms.length + 1)]
+  have sa' : a.shape = 3 :: Tensor.shape ms := by
+    rw [sa, hsh]; simp only [readme_shape, ReadmeSl.count]
+    conv_lhs => rw [← hmsl]
+    rw [readme_shape_all]
+  have sb' : b.shape = 3 :: Tensor.shape ms := by
+    rw [sb, hsh]; simp only [readme_shape, ReadmeSl.count]
+    conv_lhs => rw [← hmsl]
+    rw [readme_shape_all]
+  have hs : outShape (groupKey (readme_items (.front :: List.replicate ms.length .all) (Tensor.shape (m :: ms)))) =
+      outShape (groupKey (readme_items (.back :: List.replicate ms.length .all) (Tensor.shape (m :: ms)))) := by
+    rw [readme_groupKey, readme_groupKey, readme_outShape, readme_outShape, ← sa, ← sb, sa', sb']
+  obtain ⟨_, _, s1, _, hh⟩ := readme_loss_tangent_keys f f' (m :: ms) ht _ _ _ _ _ _ p1 n1 p2 n2 a b ha' hb' hs
+  refine ⟨a, b, ha', hb', wa, wb, sa', sb', ?_⟩
+  rw [hh, ← s1, sa']
+  congr 1
+  apply boxSum_congr_in_st
+  intro is his
+  cases is with
+  | nil => simp [inShape] at his
+  | cons j js =>
+    have hl : js.length = ms.length := by
+      have := inShape_length _ _ his
+      simpa [hmsl] using this
+    have hr : readme_src (List.replicate ms.length .all) (Tensor.shape ms) js = js := by
+      conv_lhs => rw [← hmsl]
+      exact readme_src_all _ _ (by rw [hl, hmsl])
+    have e1 : srcIdx (groupKey (readme_items (.front :: List.replicate ms.length .all) (Tensor.shape (m :: ms)))) (j :: js) = j :: js := by
+      rw [readme_groupKey, readme_srcIdx _ _ _ (by simp [hsh, hmsl]) (by simp [hl]), hsh]
+      simp only [readme_src, ReadmeSl.src, hr]
+    have e2 : srcIdx (groupKey (readme_items (.back :: List.replicate ms.length .all) (Tensor.shape (m :: ms)))) (j :: js) =
+        (m.n - 3 + j) :: js := by
+      rw [readme_groupKey, readme_srcIdx _ _ _ (by simp [hsh, hmsl]) (by simp [hl]), hsh]
+      simp only [readme_src, ReadmeSl.src, hr]
+    rw [e1, e2]
+    simp
+
+end readme2
+
+/-! ## weighted means and variances at dual numbers (constant marginals) -/
+
+section dualmarg
+variable {K : Type} [Field K]
+
+/-- **gradient of `tn.mean(t, marginals=…)`** (marginal vectors are constants): value and tangent of the result are
+    `Σ_idx v[idx]·W[idx]` and `Σ_idx d[idx]·W[idx]` with `W[idx] = Π_n w_n[idx_n] / Σ w_n` — the weighted mean of the dense tangents -/
+theorem mean_marginals_tangent (t : Tensor (Dual K)) (ht : t.WF) (margs : List (Option (Nat × (Nat → K))))
+    (hm : margsFit t.shape margs) :
+    ∃ μ : Dual K, t.meanMarg (allDims t) (Dual.sdual_constMargs margs) = .ok (.inr μ) ∧
+      μ = boxSum t.shape (fun js => t.dense js * Dual.const (margW margs js)) ∧
+      μ.v = boxSum t.shape (fun js => (t.dense js).v * margW margs js) ∧
+      μ.d = boxSum t.shape (fun js => (t.dense js).d * margW margs js) := by
+  have h := mean_marginals_anydiv t ht _ (Dual.sdual_margsFit_const _ _ hm)
+  simp only [Dual.sdual_margW_const] at h
+  refine ⟨_, h, rfl, ?_, ?_⟩
+  · rw [Dual.sdual_boxSum_v]; simp [Dual.const]
+  · rw [Dual.sdual_boxSum_d]; simp [Dual.const]
+
+/-- **gradient of `tn.var(t, marginals)`** (marginal vectors are constants): the value is the weighted variance of the dense values,
+    the tangent is `Σ_idx 2·(v[idx] − μ_v)·(d[idx] − μ_d)·W[idx]`, the directional derivative of the weighted variance of the dense array -/
+theorem var_marginals_tangent (t : Tensor (Dual K)) (ht : t.WF) (margs : List (Nat × (Nat → K))) (hl : margs.length = t.length)
+    (hm : margsFit t.shape (margs.map some)) :
+    ∃ x : Dual K, t.varMarg (margs.map fun p => (p.1, fun i => Dual.const (p.2 i))) = .ok x ∧
+      x.v = boxSum t.shape (fun idx =>
+        ((t.dense idx).v - boxSum t.shape (fun js => (t.dense js).v * margW (margs.map some) js)) *
+        ((t.dense idx).v - boxSum t.shape (fun js => (t.dense js).v * margW (margs.map some) js)) *
+          margW (margs.map some) idx) ∧
+      x.d = boxSum t.shape (fun idx =>
+        2 * (((t.dense idx).v - boxSum t.shape (fun js => (t.dense js).v * margW (margs.map some) js)) *
+             ((t.dense idx).d - boxSum t.shape (fun js => (t.dense js).d * margW (margs.map some) js))) *
+          margW (margs.map some) idx) := by
+  have hm' := Dual.sdual_margsFit_const _ _ hm
+  rw [Dual.sdual_constMargs_some] at hm'
+  have h := var_marginals_anydiv t ht (margs.map fun p => (p.1, fun i => Dual.const (p.2 i))) (by simp [hl]) hm'
+  rw [← Dual.sdual_constMargs_some] at h
+  simp only [Dual.sdual_margW_const] at h
+  refine ⟨_, h, ?_, ?_⟩
+  · rw [Dual.sdual_boxSum_v]
+    simp only [Dual.mul_v, Dual.sub_v, Dual.sdual_boxSum_v, Dual.const]
+  · rw [Dual.sdual_boxSum_d]
+    simp only [Dual.mul_v, Dual.mul_d, Dual.sub_v, Dual.sub_d, Dual.sdual_boxSum_v, Dual.sdual_boxSum_d, Dual.const,
+      mul_zero, zero_add]
+    congr 1
+    funext idx
+    ring
+
+end dualmarg
+
+/-! ### non-vacuity of the hypotheses, and the instances the theorems are about -/
+section nonvacuous
+
+/-- a mixed-format 2-mode tensor over dual rationals (TT core with a wider-than-tall Tucker factor, then a CP factor), every entry
+    with a non-zero tangent pattern; shape `[2, 2]` -/
+def exD : Tensor (Dual ℚ) :=
+  [ { core := .tt 1 3 2 (fun _ j b => ⟨(j : ℚ) + b, 1 - j⟩), U := some { rows := 2, cols := 3, f := fun i j => ⟨(i : ℚ) - j, 2⟩ } },
+    { core := .cp 2 2 (fun j k => ⟨(j : ℚ) * 2 + k, (k : ℚ) + 1⟩), U := Option.none } ]
+
+theorem exD_wf : exD.WF := by
+  simp [exD, Tensor.WF, Tensor.WFfrom, TMode.ok, Core.rl, Core.rr, Core.spatial]
+theorem exD_pos : ∀ n ∈ exD.shape, 0 < n := by simp [exD, Tensor.shape, TMode.n]
+theorem exD_margs : margsFit exD.shape [some (2, fun i => (i : ℚ) + 1), Option.none] := by
+  simp [margsFit, exD, Tensor.shape, TMode.n]
+theorem exD_margs2 : margsFit exD.shape
+    (([(2, fun i => (i : ℚ) + 1), (2, fun i => 3 - (i : ℚ))] : List (Nat × (Nat → ℚ))).map some) := by
+  simp [margsFit, exD, Tensor.shape, TMode.n]
+
+/-- a 2-mode TT tensor over dual rationals of shape `[3, 4]` (every mode has at least 3 entries) -/
+def exR : Tensor (Dual ℚ) :=
+  [ { core := .tt 1 3 2 (fun _ j b => ⟨(j : ℚ) + b, 1 - j⟩), U := Option.none },
+    { core := .tt 2 4 1 (fun a j _ => ⟨(j : ℚ) * 2 - a, (a : ℚ) + j⟩), U := Option.none } ]
+
+theorem exR_wf : exR.WF := by
+  simp [exR, Tensor.WF, Tensor.WFfrom, TMode.ok, Core.rl, Core.rr]
+theorem exR_3 : ∀ n ∈ exR.shape, 3 ≤ n := by simp [exR, Tensor.shape, TMode.n, Core.spatial]
+
+example : sdual_NatDivLaws ℚ := sdual_natDivLaws_field ℚ
+example : sdual_NatDivLaws (Dual ℚ) := Dual.sdual_natDivLaws
+example := mean_natdiv (sdual_natDivLaws_field ℚ) C06.exQ C06.exQ_wf C06.exQ_pos
+example := meanKeep_natdiv Dual.sdual_natDivLaws exD exD_wf [false, true] rfl rfl
+example := mean_subset_natdiv Dual.sdual_natDivLaws exD exD_wf [false, true] rfl rfl rfl
+example := var_natdiv Dual.sdual_natDivLaws exD exD_wf exD_pos
+example := mean_tangent exD exD_wf exD_pos
+example := meanKeep_tangent exD exD_wf [false, true] rfl rfl
+example := mean_subset_tangent exD exD_wf [false, true] rfl rfl rfl
+example := var_tangent exD exD_wf exD_pos
+example := mean_marginals_anydiv exD exD_wf _ (Dual.sdual_margsFit_const _ _ exD_margs)
+example := mean_marginals_subset_anydiv exD exD_wf [true, false] _ (Dual.sdual_margsFit_const _ _ exD_margs) rfl rfl
+example := mean_marginals_tangent exD exD_wf _ exD_margs
+example := var_marginals_tangent exD exD_wf _ rfl exD_margs2
+example := norm_tangent (fun x => x * x) (fun x => 2 * x) exD exD_wf
+example := dist_tangent (fun x => x * x) (fun x => 2 * x) exD (exD.mul exD) exD_wf
+  (C02.mul_wf_shape exD exD exD_wf exD_wf rfl).1 (C02.mul_wf_shape exD exD exD_wf exD_wf rfl).2.symm
+example := std_tangent (fun x => x * x) (fun x => 2 * x) exD exD_wf exD_pos
+example := readme_loss_tangent (fun x => x * x) (fun x => 2 * x) exR exR_wf exR_3
+example := readme_loss_first_mode_tangent (fun x => x * x) (fun x => 2 * x) _ _ exR_wf
+  (by simp [TMode.n, Core.spatial])
+/-- the hypotheses of `readme_loss_tangent_keys` are satisfiable (here with the README keys on `exR`) -/
+example : ∃ a b : Tensor (Dual ℚ), a.WF ∧ b.WF ∧ a.shape = b.shape := by
+  obtain ⟨a, b, _, _, wa, wb, sa, sb, _⟩ := readme_loss_tangent (fun x => x) (fun _ => 1) exR exR_wf exR_3
+  exact ⟨a, b, wa, wb, by rw [sa, sb]⟩
+
+/-- the theorems above are about the arithmetic the compiled driver runs: `Driver.lean` computes `mean`, `meankeep`, `var` over
+    `abbrev Q := TN.Dual Rat` with the instances of Model/Dual.lean over core `Rat`; these are (definitionally) the instances the
+    statements elaborate to -/
+example (t : Tensor (Dual ℚ)) :
+    t.var = @Tensor.var (Dual ℚ) (@Dual.instZero ℚ ⟨0⟩) (@Dual.instOneOfZero ℚ ⟨0⟩ ⟨1⟩) (@Dual.instAdd ℚ Rat.instAdd)
+      (@Dual.instMulOfAdd ℚ Rat.instAdd Rat.instMul) (@Dual.instNeg ℚ Rat.instNeg)
+      (@Dual.instDivOfAddOfSubOfMul ℚ Rat.instAdd Rat.instSub Rat.instMul Rat.instDiv) t := rfl
+example (t : Tensor (Dual ℚ)) (dims : List Bool) :
+    t.mean dims = @Tensor.mean (Dual ℚ) (@Dual.instZero ℚ ⟨0⟩) (@Dual.instOneOfZero ℚ ⟨0⟩ ⟨1⟩) (@Dual.instAdd ℚ Rat.instAdd)
+      (@Dual.instMulOfAdd ℚ Rat.instAdd Rat.instMul)
+      (@Dual.instDivOfAddOfSubOfMul ℚ Rat.instAdd Rat.instSub Rat.instMul Rat.instDiv) t dims := rfl
+
+end nonvacuous
 
 end TN.C07
